@@ -1,6 +1,7 @@
 //! Harness-owned **baton scheduler** (DESIGN.md §3.7, B.2, B.3) — used by C15, C16, C17, C31b.
 //!
-//! A *run* executes a handful of **actors** (closures, each on its own OS thread) of which exactly
+//! A *run* executes a handful of **actors** (closures, each on its own OS thread — taken from a
+//! per-caller pool of worker threads that is reused across runs and pinned to the caller's CPU) of which exactly
 //! one — the baton holder — executes at any time. The baton changes hands only inside the
 //! scheduler's entry points: [`yield_point`] / [`blocked`] (called by the synchronisation shims of
 //! the code under test), [`ActorCtx::park`] (a future returned `Pending`), [`ActorCtx::yield_now`]
@@ -796,15 +797,37 @@ pub fn run<'a>(schedule: &Schedule, opts: &Options, on_thread_start: &(dyn Fn() 
         return finish(&shared, names);
     }
     let cpu = unsafe { libc::sched_getcpu() };
-    std::thread::scope(|scope| {
+    let latch = Arc::new(Latch { left: Mutex::new(n), cv: Condvar::new() });
+    // From here on `run` must not return before every job has finished: the jobs borrow from the
+    // caller's stack ('a, `on_thread_start`). The guard waits for the latch even on unwinding.
+    let guard = LatchGuard(latch.clone());
+    POOL.with(|pool| {
+        let mut pool = pool.borrow_mut();
+        while pool.workers.len() < n {
+            let k = pool.workers.len();
+            pool.workers.push(Worker::spawn(k));
+        }
         for (id, actor) in actors.into_iter().enumerate() {
             let shared = shared.clone();
             let body = actor.body;
-            std::thread::Builder::new()
-                .name(format!("actor-{id}-{}", actor.name))
-                .spawn_scoped(scope, move || actor_main(shared, id, cpu, body, on_thread_start))
-                .expect("spawn actor thread");
+            let latch = latch.clone();
+            let job: Box<dyn FnOnce() + Send + '_> = Box::new(move || {
+                // `actor_main` consumes (and drops) everything borrowed before the latch is released
+                actor_main(shared, id, cpu, body, on_thread_start);
+                latch.done();
+            });
+            // SAFETY: the job only borrows data that outlives this call of `run`, and `run` does not
+            // return (or unwind past `guard`) before the job has signalled the latch, which it does
+            // after dropping all borrowed state.
+            let job: Job = unsafe { std::mem::transmute::<Box<dyn FnOnce() + Send + '_>, Job>(job) };
+            if let Err(e) = pool.workers[id].tx.send(job) {
+                // worker thread is gone (cannot happen: workers never exit while the pool lives);
+                // run the job here so that the latch is still released
+                (e.0)();
+            }
         }
+    });
+    {
         // first decision: who starts
         let mut w = shared.lock();
         match w.decide_forced(None) {
@@ -814,10 +837,83 @@ pub fn run<'a>(schedule: &Schedule, opts: &Options, on_thread_start: &(dyn Fn() 
             }
             None => unreachable!("all actors start runnable"),
         }
-        drop(w);
-        // the scope joins all actor threads
-    });
+    }
+    drop(guard); // waits until every actor job has finished
     finish(&shared, names)
+}
+
+// ---------------------------------------------------------------------------------------------
+// worker threads: one pool per calling thread, reused across runs (creating and destroying 4–8 OS
+// threads per run dominated the cost of a run by an order of magnitude)
+
+type Job = Box<dyn FnOnce() + Send + 'static>;
+
+struct Latch {
+    left: Mutex<usize>,
+    cv: Condvar,
+}
+
+impl Latch {
+    fn done(&self) {
+        let mut l = self.left.lock().unwrap_or_else(|e| e.into_inner());
+        *l -= 1;
+        if *l == 0 {
+            self.cv.notify_all();
+        }
+    }
+}
+
+struct LatchGuard(Arc<Latch>);
+
+impl Drop for LatchGuard {
+    fn drop(&mut self) {
+        let mut l = self.0.left.lock().unwrap_or_else(|e| e.into_inner());
+        while *l > 0 {
+            l = self.0.cv.wait(l).unwrap_or_else(|e| e.into_inner());
+        }
+    }
+}
+
+struct Worker {
+    tx: std::sync::mpsc::Sender<Job>,
+    handle: Option<std::thread::JoinHandle<()>>,
+}
+
+impl Worker {
+    fn spawn(k: usize) -> Worker {
+        let (tx, rx) = std::sync::mpsc::channel::<Job>();
+        let handle = std::thread::Builder::new()
+            .name(format!("vf-sched-actor-{k}"))
+            .spawn(move || {
+                for job in rx {
+                    job();
+                }
+            })
+            .expect("spawn scheduler worker thread");
+        Worker { tx, handle: Some(handle) }
+    }
+}
+
+#[derive(Default)]
+struct Pool {
+    workers: Vec<Worker>,
+}
+
+impl Drop for Pool {
+    fn drop(&mut self) {
+        for w in self.workers.drain(..) {
+            let Worker { tx, handle } = w;
+            drop(tx);
+            if let Some(h) = handle {
+                let _ = h.join();
+            }
+        }
+    }
+}
+
+thread_local! {
+    static POOL: RefCell<Pool> = RefCell::new(Pool::default());
+    static PINNED: std::cell::Cell<i32> = const { std::cell::Cell::new(-1) };
 }
 
 fn finish(shared: &Arc<Shared>, names: Vec<String>) -> Report {
@@ -839,7 +935,7 @@ fn finish(shared: &Arc<Shared>, names: Vec<String>) -> Report {
 /// them on the CPU of the thread that called `run` turns every baton hand-off into a local context
 /// switch (no cross-CPU wake-up / IPI — these dominate the cost, especially inside a VM).
 fn pin_to(cpu: i32) {
-    if cpu < 0 || std::env::var_os("VF_SCHED_NO_PIN").is_some() {
+    if cpu < 0 || PINNED.with(|p| p.replace(cpu)) == cpu {
         return;
     }
     unsafe {
@@ -852,6 +948,7 @@ fn pin_to(cpu: i32) {
 
 fn actor_main<'a>(shared: Arc<Shared>, id: usize, cpu: i32, body: Body<'a>, on_thread_start: &(dyn Fn() + Sync)) {
     pin_to(cpu);
+    ACTOR_PANIC.with(|p| *p.borrow_mut() = None);
     ACTOR.with(|a| *a.borrow_mut() = Some((shared.clone(), id)));
     on_thread_start();
     let ctx = ActorCtx { shared: shared.clone(), id, waker: Waker::from(Arc::new(ActorWaker { shared: shared.clone(), actor: id })) };
